@@ -1,6 +1,10 @@
 // C18: depth and byte limits (both are attached through the action class of a rule)
 #include "common.hpp"
+#include <cstddef>
+// the one-step harness (w_depth_step) puts the real input_with_depth into an arbitrary pre-state (any number of levels already entered)
+#define private public
 #include <tao/pegtl/contrib/input_with_depth.hpp>
+#undef private
 #include <tao/pegtl/contrib/limit_depth.hpp>
 #include <tao/pegtl/contrib/limit_bytes.hpp>
 #include <tao/pegtl/contrib/check_bytes.hpp>
@@ -103,3 +107,31 @@ static void run_bytes( const char* b, unsigned long n, unsigned long s, unsigned
 extern "C" __attribute__( ( noinline ) ) void w_bytes_ar( const char* b, unsigned long n, unsigned long s, unsigned long* o ) { run_bytes< apply_mode::action, rewind_mode::required >( b, n, s, o ); }
 extern "C" __attribute__( ( noinline ) ) void w_bytes_ao( const char* b, unsigned long n, unsigned long s, unsigned long* o ) { run_bytes< apply_mode::action, rewind_mode::optional >( b, n, s, o ); }
 extern "C" __attribute__( ( noinline ) ) void w_bytes_nr( const char* b, unsigned long n, unsigned long s, unsigned long* o ) { run_bytes< apply_mode::nothing, rewind_mode::required >( b, n, s, o ); }
+
+// ---- one guarded step from an arbitrary depth: L := d1 under limit_depth< BIG >, entered with d0 levels already counted
+#ifndef BIG
+#define BIG 70000
+#endif
+namespace vf
+{
+   template<> struct rid< limit_depth< BIG > > { static constexpr int value = 702; };
+}  // namespace vf
+struct L : dsym< 1 > {};
+template< typename Rule > struct sact : nothing< Rule > {};
+template<> struct sact< L > : limit_depth< BIG > {};
+
+extern "C" __attribute__( ( noinline ) ) void w_depth_step( const char* b, unsigned long n, unsigned long s, unsigned long d0, unsigned long* o )
+{
+   depth_in in( b, b + n, "" );
+   in.bump_in_this_line( s );
+   in.m_depth = static_cast< decltype( in.m_depth ) >( d0 );
+   o[ 5 ] = in.current_depth();
+   o[ 2 ] = 0; o[ 3 ] = 0;
+   try {
+      o[ 0 ] = vf::vcontrol< L >::match< apply_mode::action, rewind_mode::required, sact, vf::vcontrol >( in );
+   }
+   catch( const vf::verif_exc& e ) { o[ 0 ] = 2; o[ 2 ] = e.id; o[ 3 ] = e.byte; }
+   catch( const vf::foreign_exc& e ) { o[ 0 ] = 3; o[ 2 ] = e.id; }
+   o[ 1 ] = in.byte();
+   o[ 4 ] = in.current_depth();
+}
